@@ -119,7 +119,7 @@ def _container(r, row):
         return list(row)
     if k < 0.8:
         return tuple(row)
-    return np.array(row)
+    return np.array(row)      # (rows are documented as lists of numbers; tuples and numpy arrays are what the library's own tests use)
 
 
 class Party(sut.BaseAlgorithm):
